@@ -179,7 +179,10 @@ class Facts:
         vals = [c for c in self.consts if c["path"] == path]
         if len(vals) != 1 or vals[0]["val"] is None:
             raise AnchorMissing("const %s" % path)
-        return vals[0]["val"]["v"]
+        v = vals[0]["val"]
+        while v.get("t") == "adt" and len(v["fields"]) == 1:
+            v = v["fields"][0]["val"]   # newtype constant: the wrapped scalar
+        return v["v"]
 
     def ty(self, ix):
         return self.types[ix]
